@@ -1,10 +1,22 @@
 """Human-written texts for MANIFEST.json (see tools/gen_manifest.py)."""
-HOOK_COMMITS = ["ce911b9", "6681dd4", "46c7d56"]
+HOOK_COMMITS = ["ce911b9", "6681dd4", "46c7d56", "d178c2c"]
 NOTES = ("Every check: (1) regenerates the constants/tables translation from /repo, (2) re-checks the property's Lean theorems "
          "and audits their axioms, (3) rebuilds the harness against /repo's working tree and runs the model-vs-implementation "
          "correspondence suites the property depends on, (4) runs the property's oracle on the real code. See DESIGN.md.")
 NOT_CLAIMED = {}
 CHECKS = {
+    "C02": {
+        "text": "Machine-checked proof (Lean 4): for every scalar type, each round of the model's loop is 'residual test, then the solver's step for the Jacobian and residual at the current point, then x + d, then the step test', and a start at an exact solution returns at once; over the reals (Mathlib) the damped step exists, is unique, is a descent direction and vanishes exactly at stationary points; on consistent linear systems no step moves away from any solution; and the abstract contraction argument: a 1/2-contraction towards x* on a ball containing the guess keeps every iterate in the ball, halves the error each round and never takes an iterate farther from the guess than 1.5 times the guess-to-x* distance (quadratic error reduction implies the hypothesis). With C13 (Jacobian = derivative for all 23 kinds) this is the whole logical content; convergence of the f64 iteration on a given system is searched on the real code, not proved.",
+        "design_ref": "DESIGN.md §6 C02",
+        "note": "Partial by nature: the property is about floating-point Newton convergence. The planted-solution oracle on the real code is the property's own quantifier; F15 (rare >1.5x landings on under-determined systems) is a known finding.",
+        "technique": "Lean 4 proof (loop anatomy by case analysis; Mathlib linear algebra for the step; induction for the contraction bound) + kernel/trace correspondence with step certificate + planted-solution oracle on the real code",
+    },
+    "C04": {
+        "text": "Machine-checked proof (Lean 4): for every scalar type, a variable whose step component is a neutral element keeps its guess through every round, level and in the returned values, and an empty request list returns the guesses; over the reals (Mathlib), the exact step has a zero component for every variable whose Jacobian column is zero, the linear kinds are affine with constant Jacobian rows (all aliasings), one damped step is the minimiser of |Ax-b|^2 + lambda|x-x0|^2, the total displacement stays orthogonal to the kernel of A, the gradient after a step is exactly -lambda*d, a stationary point is a global least-squares minimiser, and a stationary point whose displacement lies in range(A^T) is the unique least-squares point nearest the guess.",
+        "design_ref": "DESIGN.md §6 C04",
+        "note": "The 1e-4*scale closeness of the f64 result is compared with an exact rational minimum-norm least-squares oracle (sympy) on the real code; trace replay checks d_j == 0 for unmentioned variables on every recorded iteration.",
+        "technique": "Lean 4 proof (loop invariant for untouched variables; Mathlib matrix algebra for Tikhonov / nearest least squares) + kernel/trace correspondence + exact rational least-squares oracle",
+    },
     "C03": {
         "text": "Machine-checked proof (Lean 4) that the model's prioritised solve returns, for every request list, priority assignment and per-level behaviour, exactly the outcome of the last level of the maximal fully-satisfied prefix (or the first level's own error / best effort), with the solved priority and caller positions reported; for every scalar type, so also for the Float instantiation that is replayed against recorded runs of the real solver.",
         "design_ref": "DESIGN.md §6 C03",
